@@ -1,7 +1,7 @@
 (* C13 — A later barrier stage sees an event only after the previous stage finished it. *)
 From Coq Require Import Arith Lia.
 From DC Require Import Disruptor.Pipeline.
-From DC Require Disruptor.HB Disruptor.PipeReplay Disruptor.MultiPub Disruptor.Handlers Disruptor.MultiPipe.
+From DC Require Disruptor.HB Disruptor.PipeReplay Disruptor.MultiPub Disruptor.Handlers Disruptor.MultiPipe Disruptor.Slots Disruptor.SlotsProofs.
 From Coq Require Import ZArith.
 
 Theorem C13_stage_order : forall N H stage last s h i a g,
@@ -70,3 +70,13 @@ Print Assumptions C13_stage_order.
 Print Assumptions C13_stage_order_percursor_stale_reads.
 Print Assumptions C13_sees_earlier_stages_only.
 Print Assumptions C13_no_stage_is_lapped.
+
+(* the write path (get_mut, used by the producer and by mutable handlers) and the read path (get, used by immutable handlers) address
+   the same slot: a value written for sequence s is read back through exactly the sequences congruent to s modulo the ring size,
+   every other read is unchanged (Disruptor/Slots.v mirrors const_array_ring_buffer.rs; any ring of 2^k slots) *)
+Theorem C13_write_path_and_read_path_address_the_same_slot : forall k r s v, SlotsProofs.Inv k r ->
+  exists r', Slots.set r s v = Some r' /\ SlotsProofs.Inv k r' /\
+    forall s', Slots.get r' s' = if ((s mod 2 ^ k) =? (s' mod 2 ^ k))%N then Some v else Slots.get r s'.
+Proof. exact SlotsProofs.set_spec. Qed.
+
+Print Assumptions C13_write_path_and_read_path_address_the_same_slot.
